@@ -87,10 +87,13 @@ theorem consts_tied :
     keyToken = [97, 117, 116, 104, 95, 116, 111, 107, 101, 110] := ⟨rfl, rfl, rfl, rfl, rfl⟩
 
 /-- the authentication state lives in the connection's own map, which is a fresh literal per
-    connection; `SetAuthenticated` is the only writer of the state key -/
+    connection; `SetAuthenticated` is the only writer of the state key; reader and writer hold the
+    channel's lock (one step of the model each) -/
 theorem state_is_per_connection :
     Gen.Auth.defaultCap = ["return CapabilityMap{…}"] ∧
-    Gen.Auth.channelAuthenticated = ["{ return c.capability.Authenticated() }", "{ c.capability.SetAuthenticated() }"] ∧
+    Gen.Auth.channelAuthenticated =
+      ["{ c.stateMutex.RLock() defer c.stateMutex.RUnlock() return c.capability.Authenticated() }",
+       "{ c.stateMutex.Lock() defer c.stateMutex.Unlock() c.capability.SetAuthenticated() }"] ∧
     Gen.Auth.setAuthenticatedFlow = ["{ c[KeyState] = value.Uint(StateDone) }"] := ⟨rfl, rfl, rfl⟩
 
 end QiVerif.Tie.C06
